@@ -17,8 +17,10 @@ use serde_json::{json, Value};
 use std::collections::BTreeMap;
 use std::fmt::Debug;
 
-pub const CHANNELS: [&str; 4] = ["str", "slice", "reader", "value"];
-pub const SPELLINGS: [&str; 3] = ["plain", "ws", "uescape"];
+/// serde_json's four entry points and the library's own decoding helpers (Json / JsonPretty interchange)
+pub const CHANNELS: [&str; 8] = ["str", "slice", "reader", "value", "json_slice", "json_reader", "json_tree", "jsonpretty_reader"];
+/// three spellings of the same document and three damaged texts that every channel must reject alike
+pub const SPELLINGS: [&str; 6] = ["plain", "ws", "uescape", "trailing_garbage", "concatenated", "truncated"];
 
 /// parse `text` through one channel; None = the channel could not even be fed (text is not JSON)
 pub fn parse_via<T: DeserializeOwned>(text: &str, channel: &str) -> Result<Result<T, String>, String> {
@@ -30,6 +32,13 @@ pub fn parse_via<T: DeserializeOwned>(text: &str, channel: &str) -> Result<Resul
             let v: Value = serde_json::from_str(text).map_err(|e| format!("not json: {e}"))?;
             serde_json::from_value::<T>(v).map_err(|e| e.to_string())
         }
+        "json_slice" => <in_toto::interchange::Json as in_toto::interchange::DataInterchange>::from_slice::<T>(text.as_bytes()).map_err(|e| e.to_string()),
+        "json_reader" => <in_toto::interchange::Json as in_toto::interchange::DataInterchange>::from_reader::<_, T>(std::io::Cursor::new(text.as_bytes().to_vec())).map_err(|e| e.to_string()),
+        "jsonpretty_reader" => <in_toto::interchange::JsonPretty as in_toto::interchange::DataInterchange>::from_reader::<_, T>(std::io::Cursor::new(text.as_bytes().to_vec())).map_err(|e| e.to_string()),
+        "json_tree" => {
+            let v: Value = serde_json::from_str(text).map_err(|e| format!("not json: {e}"))?;
+            <in_toto::interchange::Json as in_toto::interchange::DataInterchange>::deserialize::<T>(&v).map_err(|e| e.to_string())
+        }
         _ => Err("channel".into()),
     })
 }
@@ -38,6 +47,9 @@ pub fn respell(text: &str, spelling: &str) -> String {
     let v: Value = serde_json::from_str(text).expect("own serialisation is JSON");
     match spelling {
         "plain" => text.to_string(),
+        "trailing_garbage" => format!("{text} x"),
+        "concatenated" => format!("{text}{text}"),
+        "truncated" => text[..text.len().saturating_sub(1)].to_string(),
         "ws" => spell_value(&v, SpellMode { reverse: false, spaces: true, escape_all: false, slash: false }),
         _ => spell_value(&v, SpellMode { reverse: true, spaces: false, escape_all: true, slash: false }),
     }
@@ -51,9 +63,12 @@ fn channels<T: DeserializeOwned + PartialEq + Debug>(text: &str) -> (bool, Optio
     let mut agree = true;
     for sp in SPELLINGS {
         let t = respell(text, sp);
+        let damaged = matches!(sp, "trailing_garbage" | "concatenated" | "truncated");
+        // what the reference channel (str) says about THIS text
+        let reference: Result<Result<T, String>, String> = if damaged { parse_via(&t, "str") } else { parse_via(text, "str") };
         for ch in CHANNELS {
             let r: Result<Result<T, String>, String> = parse_via(&t, ch);
-            let same = match (&base, &r) {
+            let same = match (&reference, &r) {
                 (Ok(Ok(a)), Ok(Ok(b))) => a == b,
                 (Ok(Err(_)), Ok(Err(_))) => true,
                 _ => false,
@@ -155,6 +170,12 @@ fn rules_for(kind: &str, s: &str) -> (Vec<ArtifactRule>, Vec<ArtifactRule>) {
         "match_nosrc" => (vec![], vec![m(false, true)]),
         "match_nodst" => (vec![m(true, false)], vec![]),
         "match_bare" => (vec![m(false, false)], vec![m(false, false)]),
+        // operands that a normaliser would be tempted to tidy up
+        "match_slash" => (
+            vec![ArtifactRule::Match { pattern: "./p/".into(), in_src: Some(format!("in{s}/")), with: Artifact::Materials, in_dst: Some("out//".to_string()), from: " s ".to_string() }],
+            vec![ArtifactRule::Match { pattern: "P".into(), in_src: Some("/".to_string()), with: Artifact::Products, in_dst: Some(String::new()), from: "S/".to_string() },
+                 ArtifactRule::Create(" a ".into()), ArtifactRule::Disallow("a/".into())],
+        ),
         _ => (vec![m(true, true), ArtifactRule::Allow("*".into()), m(false, false)], vec![m(true, false), ArtifactRule::Disallow("IN".into()), m(false, true)]),
     }
 }
